@@ -29,12 +29,16 @@ import common
 import wire
 
 LEAN_MODULES = ["PySMT.Props.C03"]
-RULE = ("exhaustive grids: (A) create_node on each of the 66 node types x every argument-sort tuple over a 14-sort "
-        "universe (arity<=3; arity 4-5 over 4 sorts for n-ary operators) x payload corners; (B) every FormulaManager "
-        "constructor x every argument-sort tuple x integer-parameter corners (extract bounds on/over the width, "
-        "rotate/extend by 0,w,w+1,negative); plus random well-typed formulas through 8 transformations. A case is "
-        "non-trivial when the application is accepted by the implementation or by the sorting rules "
-        "(not rejected by both); distinct = distinct (constructor, sorts, parameters)")
+RULE = ("exhaustive grids, nothing sampled: (A) create_node on each of the 66 node types x every argument-sort tuple over a "
+        "14-sort universe {Bool,Int,Real,String,BV1,BV2,BV8,Array Int Int,Array BV2 Bool,Array Int (Array Int Real),S,"
+        "Int->Int,BoolxInt->Bool,S->S} for arity 0-2 x every payload corner, arity 3 (quick: 12 sorts for ternary operators, "
+        "8 for n-ary, 5 for the others; thorough: all 14) and arity 4-5 over 4 sorts for n-ary operators; (B) every "
+        "FormulaManager constructor (95, incl. derived ones) x every argument-sort tuple x integer-parameter corners (extract "
+        "bounds on/over the width, rotate/extend/repeat/shift by 0,1,w-1,w,w+1,2w+1,negative, non-integers) and value corners "
+        "of the constant constructors; (H) random create_node histories against Impl/CreateNode; (T) random well-typed formulas "
+        "through simplify/substitute/nnf/prenex/aig/cnf/ackermannize/parse(print). A case is non-trivial when the application "
+        "is accepted by the implementation or by the sorting rules (not rejected by both), a transformation case when the "
+        "result differs from the input; distinct = distinct (constructor, sorts, parameters) / (transformation, formula)")
 ASSUMPTIONS = [
     "sorts are taken as given: well-formedness of a sort itself ((_ BitVec 0), arrays of function types) is not part of HasType",
     "function-typed symbols are declarations, not terms: a `symbol` node with a function signature has no sort",
@@ -474,32 +478,59 @@ def real_payload(env, o, p):
     raise ValueError(p)
 
 
+def fnode_of_raw(env, t, memo=None):
+    """raw tree -> FNode through create_node (used by replay)"""
+    if memo is None:
+        memo = {}
+    if t in memo:
+        return memo[t]
+    o, p, ch = t
+    args = tuple(fnode_of_raw(env, c, memo) for c in ch)
+    f = env.formula_manager.create_node(wire.OPID[o], args, real_payload(env, o, p))
+    memo[t] = f
+    return f
+
+
+def raw_of_wire(line):
+    nodes = wire.dec_term(wire.Tok(line.split()[1:]))
+    built = []
+    for (o, p, ch) in nodes:
+        if p is not None and p[0] == "y" and p[2][0] == "F":
+            p = ("y", p[1], ("F", p[2][1], tuple(p[2][2])))
+        built.append((o, p, tuple(built[c] for c in ch)))
+    return built[-1]
+
+
 def arg_sym(pos, s):
     return sym("a%d_%s" % (pos, SNAME[s]), s)
 
 
 U12 = [s_ for s_ in U14 if not is_fn(s_)] + [F(I, I)]
+U8 = [B, I, R, S, V(2), V(8), A(I, I), F(I, I)]
 U5 = [B, I, V(8), A(I, I), F(I, I)]
+U3 = [B, I, V(8)]
+TERNARY = {"ite", "arrayStore", "strIndexOf", "strSubstr", "strReplace"}
 TERNARY_OR_NARY = {"ite", "arrayStore", "strIndexOf", "strSubstr", "strReplace", "and", "or", "plus", "times",
                    "strConcat", "function", "arrayValue"}
 
 
 def grid_a_cases(o, tier):
-    """quick tier: arity 3 over 12 sorts (11 + one function sort) for the operators that take three or
-    more arguments, over 5 sorts for the others (where a third argument is only an extra one);
+    """quick tier: arity 3 over 12 sorts (11 + one function sort) for the ternary operators, over 8 sorts
+    for the n-ary ones, over 5 sorts for the others (where a third argument is only an extra one);
     thorough tier: all 14 sorts everywhere"""
     small, big = payload_corners(o)
     for n in range(0, 3):
         for ss in itertools.product(U14, repeat=n):
             for p in small:
                 yield ss, p
-    u3 = U14 if tier != "quick" else (U12 if o in TERNARY_OR_NARY else U5)
+    u3 = U14 if tier != "quick" else (U12 if o in TERNARY else (U8 if o in TERNARY_OR_NARY else U5))
     for ss in itertools.product(u3, repeat=3):
         for p in big:
             yield ss, p
     if o in NARY:
         for n in (4, 5):
-            for ss in itertools.product(U4 + ([S] if o == "strConcat" else []), repeat=n):
+            uni = U4 if (tier != "quick" or n == 4) else U3
+            for ss in itertools.product(uni + ([S] if o == "strConcat" else []), repeat=n):
                 for p in big:
                     yield ss, p
 
@@ -1090,7 +1121,11 @@ def grid_b_cases(name, tier):
                 for ss in itertools.product(uni, repeat=n):
                     yield arg_syms(ss), ex
             for n in (4, 5):
-                for ss in itertools.product(U4 + ([S] if name == "StrConcat" else []), repeat=n):
+                full = (not quick) or name in ("And", "Plus", "BVAdd", "BVConcat", "StrConcat", "AllDifferent")
+                if not full and n == 5:
+                    continue
+                uni = U4 if full else U3
+                for ss in itertools.product(uni + ([S] if name == "StrConcat" else []), repeat=n):
                     yield arg_syms(ss), ex
     if name == "BVExtract":
         for s in U14:
@@ -1132,9 +1167,7 @@ def grid_b_cases(name, tier):
             for d in U14:
                 yield arg_syms((d,)), (idx, None)
                 yield arg_syms((d,)), (idx, ())
-                # (an ill-typed array value costs ~10 ms: printing it for the error message recurses
-                #  through get_type up to the recursion limit) -- quick tier: value sorts {d, Bool, Int}
-                vals = U14 if not quick else sorted({d, B, I})
+                vals = U14
                 for kidx in (I, V(2), B):
                     for vs in vals:
                         yield arg_syms((d,)), (idx, ((keys[kidx][0], arg_sym(1, vs)),))
@@ -1299,6 +1332,8 @@ def model_boundary(o, p, n, impl_ok, lean_ok):
         if o == "arrayValue" and n >= 2 and n % 2 == 0:
             return "dangling-array-key"
     if lean_ok and not impl_ok:
+        if o in ("forall", "exists") and (p is None or p[0] != "Q"):
+            return "quantifier-without-variable-list"     # walk_quantifier iterates the payload since f0cd2ee
         if o in ("le", "lt") and n == 0:
             return "relation-without-arguments"
         if o == "function" and n == 0 and p is not None and p[0] == "y" and not is_fn(p[2]):
@@ -1326,7 +1361,41 @@ def classify_node(o, p, ss):
         return "pow-non-numeric"
     if o == "equals" and len(ss) == 2 and ss[0] == ss[1] == B:
         return "equals-on-bool"
+    if o in NO_PAYLOAD or payload_shape(o, p, ss) == "other":
+        return "sorts"
     return "payload"
+
+
+def payload_shape(o, p, ss):
+    """which convention of Core/Term.lean the payload of an accepted node breaks"""
+    if p is None:
+        return "no-payload"
+    pn = list(p[1:]) if p[0] == "n" else None
+    if o in BV_UN or o in BV_BIN:
+        return "extra-payload-element" if pn is not None and len(pn) > 1 else "other"
+    if o == "bvComp":
+        return "cached-width-not-1" if pn is not None and len(pn) == 1 else "other"
+    if o == "bvExtract" and pn is not None and len(pn) == 3:
+        if pn[1] < 0 or pn[2] < 0:
+            return "negative-index"
+        return "lo>hi" if pn[1] > pn[2] else "other"
+    if o in ("bvZext", "bvSext") and pn is not None and len(pn) != 2:
+        return "no-increase-in-payload"
+    if o in ("bvZext", "bvSext") and pn is not None and ss and is_bv(ss[0]):
+        return "increase-inconsistent-with-cached-width" if pn[0] != ss[0][1] + pn[1] or pn[1] < 0 else "other"
+    if o in ("forall", "exists") and p[0] == "Q" and len(p) == 1:
+        return "no-bound-variable"
+    return "other"
+
+
+def hole_shape(o, p, ss, hole):
+    if hole == "arity":
+        return "%s/%d" % (o, len(ss))
+    if hole == "payload":
+        return "%s:%s" % (o, payload_shape(o, p, ss))
+    if hole == "sorts":
+        return "%s(%s) payload %s" % (o, sorts_key(ss), payload_key(p))
+    return hole
 
 
 def parse_chk(ans):
@@ -1422,11 +1491,11 @@ def judge_grid_a(ctx, judge, results):
         # ---- S: the implementation against the sorting rules
         hole = classify_node(o, p, ss)
         if impl_ok and rk is None:
-            if o == "symbol" and any(True for _ in [0]) and p is not None and p[0] == "y" and is_fn(p[2]) and not ss:
-                pass        # declaring a function symbol: a declaration, not a term
+            if o == "symbol" and p is not None and p[0] == "y" and is_fn(p[2]) and not ss:
+                pass        # a function symbol: a declaration, not a term
             else:
                 ctx.report_s({"oracle": "sort-rules", "via": "create_node", "kind": "accepted-ill-sorted",
-                              "op": o, "hole": hole},
+                              "op": o, "hole": hole, "shape": hole_shape(o, p, ss, hole)},
                              "create_node(%s) on (%s) payload %s returned a formula of type %s; the rules say ill-sorted"
                              % (o, sorts_key(ss), payload_key(p), sort_name(impl_ty) if isinstance(impl_ty, tuple) else impl_ty),
                              replay)
@@ -1526,7 +1595,8 @@ def judge_grid_b(ctx, judge, name, results):
         replay = {"grid": "B", "ctor": name, "sorts": [sort_name(s) if s else "?" for s in ss],
                   "args": [show_raw(a) for a in args], "extra": extra_key(extra), "impl": repr(res),
                   "rules": repr(rk), "predicted": pred[0] + (": " + pred[1] if pred[0] == "reject" else "")}
-        if impl_ok and len(ctx.samples) < 3 and len(args) >= 2:
+        if impl_ok and len(ctx.samples) < 4 and len(args) >= 2 and not any(
+                isinstance(x, dict) and x.get("ctor") == name for x in ctx.samples):
             ctx.sample({"ctor": name, "sorts": replay["sorts"], "extra": replay["extra"], "type": sort_name(impl_ty)})
         # ---- S
         sig = {"oracle": "sort-rules", "via": "constructor", "ctor": name, "shape": shape}
@@ -1798,20 +1868,97 @@ def transformations(env):
         return env.substituter.substitute(f, {v: rng.choice([mgr.FreshSymbol(v.symbol_type(), "sb%d"), v])})
 
     def t_parse_print(f):
-        buf = io.StringIO()
-        smtlibscript_from_formula(f).serialize(buf, daggify=True)
-        script = SmtLibParser(env).get_script(io.StringIO(buf.getvalue()))
+        # hand-made script (declarations + one assert): smtlibscript_from_formula needs a logic and
+        # refuses the mixed-theory formulas of the generator
+        from pysmt.smtlib.printers import to_smtlib
+        lines = []
+        seen_sorts = set()
+        for v in sorted(env.fvo.get_free_variables(f), key=lambda s_: s_.symbol_name()):
+            t = v.symbol_type()
+            stack = [t]
+            while stack:
+                x = stack.pop()
+                if x.is_custom_type() and x.basename not in seen_sorts:
+                    seen_sorts.add(x.basename)
+                    lines.insert(0, "(declare-sort %s %d)" % (x.basename, x.arity))
+                stack.extend(x.args or ())
+            lines.append("(declare-fun %s %s)" % (v.symbol_name(), t.as_smtlib()))
+        lines.append("(assert %s)" % to_smtlib(f, daggify=True))
+        script = SmtLibParser(env).get_script(io.StringIO("\n".join(lines)))
         return script.get_last_formula(mgr)
     return {
         "simplify": (t_simplify, False, False),
         "substitute": (t_substitute, False, True),
-        "parse(print)": (t_parse_print, False, False),
+        "parse(print)": (t_parse_print, True, False),
         "nnf": (lambda f: nnf(f, env), True, False),
         "prenex": (lambda f: prenex_normal_form(f, env), True, False),
         "aig": (lambda f: aig(f, env), True, False),
         "cnf": (lambda f: cnf(f, env), True, False),
         "ackermannize": (lambda f: Ackermannizer(env).do_ackermannization(f), True, False),
     }
+
+
+def check_transformations(ctx, judge, env, tr, f, only=None):
+    try:
+        fraw = raw_of_fnode(f)
+    except wire.OutOfFragment:
+        ctx.count("T_out_of_fragment")
+        return
+    fty = from_pysmt(env.stc.get_type(f))
+    isbool = fty == B
+    for tname, (fn, need_bool, need_rng) in tr.items():
+        if (need_bool and not isbool) or (only is not None and tname != only):
+            continue
+        try:
+            res = ("ok", fn(f, ctx.rng) if need_rng else fn(f))
+        except Exception as e:      # noqa  (failing transformations belong to their owner properties)
+            res = ("err", type(e).__name__)
+        ctx.count("T_" + tname)
+        rep = {"grid": "transform", "transform": tname, "formula": show_raw(fraw), "type": sort_name(fty),
+               "request_in": "chk " + enc_raw(fraw)}
+        root = fraw[0]
+        if res[0] == "err":
+            ctx.case(None)
+            ctx.count("T_unsupported" if res[1] == "NotImplementedError" else "T_err_" + tname + "_" + res[1])
+            continue            # (C01/C05/C07-C11 own the behaviour of the transformations themselves)
+        g = res[1]
+        try:
+            graw = raw_of_fnode(g)
+        except wire.OutOfFragment:
+            ctx.count("T_out_of_fragment")
+            continue
+        ctx.case(("T", tname, enc_raw(fraw)) if graw != fraw else None)
+        try:
+            gty = from_pysmt(env.stc.get_type(g))
+        except Exception as e:      # noqa
+            gty = "get_type:" + type(e).__name__
+        has_pow = "pow(" in show_raw(fraw)
+        sig = {"oracle": "transform", "transform": tname, "root": root, "pow": "yes" if has_pow else "no"}
+        if graw != fraw and len(ctx.samples) < 6 and not any(
+                isinstance(x, dict) and x.get("transform") == tname for x in ctx.samples):
+            ctx.sample({"transform": tname, "formula": show_raw(fraw)[:160], "result": show_raw(graw)[:160],
+                        "type": sort_name(fty)})
+        if gty != fty:
+            ctx.report_s(dict(sig, kind="type-changed"),
+                         "%s changed the type of %s from %r to %r (result %s)"
+                         % (tname, show_raw(fraw), fty, gty, show_raw(graw)), dict(rep, result=show_raw(graw)))
+            continue
+
+        def cont(chk, line, graw=graw, fty=fty, rep=rep, tname=tname, sig=sig, fraw=fraw):
+            if chk is None:
+                return
+            ty, wt, so, nof06, rot = chk
+            judge.spec_checks(graw, chk, line, "transform")
+            if not wt or ty != fty:
+                ctx.report_s(dict(sig, kind="result-not-wt"),
+                             "%s(%s) = %s: model says wt=%s typeOf=%r, expected %r"
+                             % (tname, show_raw(fraw), show_raw(graw), wt, ty, fty),
+                             dict(rep, result=show_raw(graw), request=line))
+            elif so != fty and nof06:
+                ctx.report_s(dict(sig, kind="result-ill-sorted"),
+                             "%s(%s) = %s is not well-sorted by the rules (%r)" % (tname, show_raw(fraw), show_raw(graw), so),
+                             dict(rep, result=show_raw(graw), request=line))
+        judge.ask(graw, cont)
 
 
 def run_transformations(ctx, judge, n):
@@ -1837,62 +1984,10 @@ def run_transformations(ctx, judge, n):
             else:
                 ty = fg.any_type(0.6)
                 f = fg.gen(ty, ctx.rng.choice([2, 3, 4]))
-            try:
-                fraw = raw_of_fnode(f)
-            except wire.OutOfFragment:
-                ctx.count("T_out_of_fragment")
-                continue
-            fty = from_pysmt(env.stc.get_type(f))
-            isbool = fty == B
-            for tname, (fn, need_bool, need_rng) in tr.items():
-                if need_bool and not isbool:
-                    continue
-                res = outcome_of((lambda: fn(f, ctx.rng)) if need_rng else (lambda: fn(f)))
-                ctx.count("T_" + tname)
-                rep = {"grid": "transform", "transform": tname, "formula": show_raw(fraw), "type": sort_name(fty),
-                       "request_in": "chk " + enc_raw(fraw)}
-                root = fraw[0]
-                if res[0] == "err":
-                    ctx.case(None)
-                    if tname in ("nnf", "cnf", "aig", "prenex") and res[1] in ("NotImplementedError",):
-                        ctx.count("T_unsupported")
-                        continue
-                    ctx.count("T_err_" + tname + "_" + res[1])
-                    continue            # failing transformations are the owner properties' business (C01/C05/C08/C10/C11)
-                g = res[1]
-                try:
-                    graw = raw_of_fnode(g)
-                except wire.OutOfFragment:
-                    ctx.count("T_out_of_fragment")
-                    continue
-                ctx.case(("T", tname, enc_raw(fraw)) if graw != fraw else None)
-                try:
-                    gty = from_pysmt(env.stc.get_type(g))
-                except Exception as e:      # noqa
-                    gty = "get_type:" + type(e).__name__
-                has_pow = "pow(" in show_raw(fraw)
-                sig = {"oracle": "transform", "transform": tname, "root": root, "pow": "yes" if has_pow else "no"}
-                if gty != fty:
-                    ctx.report_s(dict(sig, kind="type-changed"),
-                                 "%s changed the type of %s from %r to %r (result %s)"
-                                 % (tname, show_raw(fraw), fty, gty, show_raw(graw)), dict(rep, result=show_raw(graw)))
-                    continue
-
-                def cont(chk, line, graw=graw, fty=fty, rep=rep, tname=tname, sig=sig, fraw=fraw):
-                    if chk is None:
-                        return
-                    ty, wt, so, nof06, rot = chk
-                    judge.spec_checks(graw, chk, line, "transform")
-                    if not wt or ty != fty:
-                        ctx.report_s(dict(sig, kind="result-not-wt"),
-                                     "%s(%s) = %s: model says wt=%s typeOf=%r, expected %r"
-                                     % (tname, show_raw(fraw), show_raw(graw), wt, ty, fty),
-                                     dict(rep, result=show_raw(graw), request=line))
-                    elif so != fty and nof06:
-                        ctx.report_s(dict(sig, kind="result-ill-sorted"),
-                                     "%s(%s) = %s is not well-sorted by the rules (%r)" % (tname, show_raw(fraw), show_raw(graw), so),
-                                     dict(rep, result=show_raw(graw), request=line))
-                judge.ask(graw, cont)
+                if not ty.is_bool_type() and ctx.rng.random() < 0.5:
+                    # the Boolean-only transformations see theory terms as well: t = t'
+                    f = mgr.Equals(f, fg.gen(ty, 2))
+            check_transformations(ctx, judge, env, tr, f)
     finally:
         pysmt.environment.pop_env()
 
@@ -1961,6 +2056,17 @@ def replay(ctx, rep):
                                              and extra_key(x[1]) == r["extra"]])
     elif g == "constants":
         run_constants(ctx, judge)
+    elif g == "transform":
+        import pysmt.environment
+        env = Environment()
+        pysmt.environment.push_env(env)
+        try:
+            f = fnode_of_raw(env, raw_of_wire(r["request_in"]))
+            check_transformations(ctx, judge, env, transformations(env), f, only=r["transform"])
+        finally:
+            pysmt.environment.pop_env()
+    elif g == "hist":
+        print("lean:", ctx.lean_run("C03", [r["request"]])[0], " recorded implementation:", r["impl"])
     judge.flush()
     for v in ctx.s_violations:
         print("still fails (S):", v["what"])
